@@ -25,6 +25,8 @@ ASPECTS = {
     'producer_arguments': (True, True),       # changes the producer's hash, which the consumer embeds
     'reference_method_in_arguments': (True, True),
     'component_name': (False, False),
+    'component_name_ending_in_digits': (False, False),          # 'C' -> 'C2' (not a replica)
+    'executable_of_C2_beside_a_component_C': (True, True),      # the digits are part of the name, 'C' is another component
     'stage_index': (False, False),
     'instance_location': (False, False),
     'unrelated_variable': (False, False),
@@ -54,6 +56,8 @@ def build(backend, uses_producer, v):
          'references': refs, 'resourceManager': rm, 'variables': {'unrelated': v['variable']},
          'resourceRequest': {'numberProcesses': v['nproc']}},
     ]
+    if v.get('sibling'):
+        comps.append({'stage': cstage, 'name': 'C', 'command': {'executable': v['sibling'], 'arguments': 'sibling'}})
     if cstage == 2:
         comps.insert(1, {'stage': 1, 'name': 'filler', 'command': {'executable': 'echo'}})
     return {'components': comps}
@@ -71,7 +75,8 @@ BASE = {'image': 'registry/img:1', 'stage': 1, 'arguments': '-n 4', 'method': 'r
         'name': 'C', 'executable': 'bin/run', 'variable': 'u', 'nproc': 1, 'where': '/tmp'}
 CHANGE = {'executable': ('executable', 'bin/other'), 'arguments': ('arguments', '-n 5'), 'image': ('image', 'registry/img:2'),
           'producer_arguments': ('producer_arguments', 'y'), 'reference_method_in_arguments': ('method', 'copy'),
-          'component_name': ('name', 'Renamed'), 'stage_index': ('stage', 2), 'instance_location': ('where', '/usr'),
+          'component_name': ('name', 'Renamed'), 'component_name_ending_in_digits': ('name', 'C2'),
+          'executable_of_C2_beside_a_component_C': ('executable', 'bin/other'), 'stage_index': ('stage', 2), 'instance_location': ('where', '/usr'),
           'unrelated_variable': ('variable', 'w'), 'resource_request': ('nproc', 2), 'nothing': ('nproc', 1)}
 
 
@@ -87,6 +92,9 @@ def body(ctx):
     v2 = dict(BASE)
     k, val = CHANGE[aspect]
     v2[k] = val
+    if aspect == 'executable_of_C2_beside_a_component_C':
+        v1.update(name='C2', sibling='bin/sibling')
+        v2.update(name='C2', sibling='bin/sibling')
     h1 = hashes(build(backend, uses_producer, v1), v1['name'], v1['stage'], v1['where'])
     h2 = hashes(build(backend, uses_producer, v2), v2['name'], v2['stage'], v2['where'])
     detail = {'backend': backend, 'aspect': aspect, 'consumes_from_producer': uses_producer, 'hashes': (h1, h2)}
@@ -220,7 +228,33 @@ def body_chain(ctx):
     return (tuple(ins), out_present, method, in_args)
 
 
+def body_replicas(ctx):
+    """Replicas are hashed with the executable of their blueprint, whatever digits the blueprint's own name ends in."""
+    blueprint = ctx.choice('blueprint_name', ['W', 'W1', 'W07'])
+    other = ctx.choice('other_blueprint_name', ['W', 'V3'])
+    n = ctx.choice('replicas', [2, 11])
+    exe2 = ctx.choice('other_executable', ['bin/work', 'bin/else'])
+
+    def doc(name, exe):
+        return {'variables': {'default': {'global': {'n': n}}}, 'components': [
+            {'stage': 0, 'name': 'src', 'command': {'executable': 'echo', 'arguments': 'x'}, 'workflowAttributes': {'replicate': '%(n)s'}},
+            {'stage': 0, 'name': name, 'command': {'executable': exe, 'arguments': '-i src:ref'}, 'references': ['src:ref']}]}
+    last = n - 1
+    h1 = [hashes(doc(blueprint, 'bin/work'), '%s%d' % (blueprint, r), 0, '/tmp') for r in (0, last)]
+    h2 = [hashes(doc(other, exe2), '%s%d' % (other, r), 0, '/tmp') for r in (0, last)]
+    detail = {'blueprint': blueprint, 'other': other, 'replicas': n, 'other_executable': exe2, 'hashes': (h1, h2)}
+    ctx.witness('replica_checked')
+    ctx.check(all(all(h) for h in h1 + h2), 'a replica whose inputs exist has a strong and a fuzzy hash', detail)
+    if exe2 == 'bin/work':
+        ctx.check(h1 == h2, 'the hash of a replica does not depend on the name of its blueprint', detail)
+    else:
+        ctx.check(h1[0][0] != h2[0][0] and h1[1][0] != h2[1][0], 'replicas of blueprints with different executables hash differently', detail)
+    return (blueprint, other, n, exe2)
+
+
 def factory(param):
+    if param.get('name') == 'replicas':
+        return body_replicas
     if param.get('name') == 'files':
         return body_files
     if param.get('name') == 'chain':
@@ -245,6 +279,7 @@ def main(tier, seed, only=None):
                         'consumer with/without a producer reference' % len(ASPECTS),
                   'files': 'one direct file reference (copy/ref/link): present or missing in each of two instance locations, equal or different contents',
                   'chain': 'data file -> producer -> produced file -> consumer (ref/copy/output, in arguments or not): the data file missing / alpha / beta in each of two locations, the produced file present or missing',
+                  'replicas': 'a replicated consumer (2 or 11 replicas) whose blueprint is called W, W1 or W07, against W / V3 with the same or another executable',
                   'E2': 'two symbolic strings of <= 2-3 characters in arguments / executable / files / image'}
     rep.outside = ['symbolic file contents (md5_of_file is C code; two concrete contents are used)',
                    'custom JavaScript embedding functions', 'CDB lookups (Controller.can_memoize)']
@@ -253,12 +288,12 @@ def main(tier, seed, only=None):
     rep.explanation = ('E1: bounded symbolic execution (symx/z3) over the choice of the differing aspect; E2: CrossHair (z3) on the '
                        'canonicalisation with symbolic characters; counterexamples replayed natively')
     rep.required_witnesses = ['relevant_aspect_checked', 'irrelevant_aspect_checked', 'missing_input_checked', 'content_pair_checked',
-                              'chain_input_missing_checked', 'chain_pair_checked']
+                              'chain_input_missing_checked', 'chain_pair_checked', 'replica_checked']
     if not only or 'xh' in only:
         import harness.xh.c16_contracts as C
         run_e2(rep, 'harness.xh.c16_contracts', timeout, sweep=C.sweep, key=xh_key)
     if not only or 'pairs' in only:
-        s = explore_parallel('aspect-pairs', factory, [{'name': 'pairs'}, {'name': 'files'}, {'name': 'chain'}], signature=signature, seed=seed, chunk=8,
+        s = explore_parallel('aspect-pairs', factory, [{'name': 'pairs'}, {'name': 'files'}, {'name': 'chain'}, {'name': 'replicas'}], signature=signature, seed=seed, chunk=8,
                              validate=False)
         rep.add(s)
     else:
